@@ -6,6 +6,7 @@ from harness import spn as S
 from harness.build import table_with_py
 from harness.c03 import spec_verdict
 from harness.demos import demo_learn as L
+from harness.demos import demo_xpc as XD
 
 import deeprob.spn.learning.learnspn as LS
 from deeprob.spn.structure.node import Sum, Product, assign_ids
@@ -244,23 +245,45 @@ def run(ctx):
                    use_clt=use_clt, random_seed=int(rs.randint(1000)))
         ens = (k % 3 == 2)
         rep = dict(kind='c04', learner='learn_expc' if ens else 'learn_xpc', data=X.astype(int).tolist(), cfg=cfg)
+        utils = None
+        rec = XD.Recorder()
         try:
-            if ens:
-                sd_level = int(rs.randint(0, 3))
-                cfg2 = dict(cfg)
-                cfg2.pop('sd')
-                root, _ = learn_expc(X, ensemble_dim=int(rs.randint(2, 4)), sd_level=sd_level, **cfg2)
-                sd_eff = (sd_level == 2)
-                rep['sd_level'] = sd_level
-            else:
-                root, _ = learn_xpc(X, **cfg)
-                sd_eff = sd
+            with rec:
+                if ens:
+                    sd_level = int(rs.randint(0, 3))
+                    cfg2 = dict(cfg)
+                    cfg2.pop('sd')
+                    root, _ = learn_expc(X, ensemble_dim=int(rs.randint(2, 4)), sd_level=sd_level, **cfg2)
+                    sd_eff = (sd_level == 2)
+                    rep['sd_level'] = sd_level
+                else:
+                    root, utils = XD.X.learn_xpc(X, **cfg)
+                    sd_eff = sd
         except Exception as ex:           # a learner that raises has not returned (C04 is a statement about returned circuits)
             ctx.count('learner-did-not-return:' + type(ex).__name__)
             continue
         ctx.case('xpc', nontrivial_key=('xpc', k), sample=dict(cfg, ensemble=ens, shape=[nr, nv]))
         ctx.count('expc' if ens else 'xpc')
-        validate(ctx, root, nv, rep, ('learn_expc' if ens else 'learn_xpc') + f'({cfg})', sd=sd_eff)
+        if not validate(ctx, root, nv, rep, ('learn_expc' if ens else 'learn_xpc') + f'({cfg})', sd=sd_eff):
+            continue
+        # correspondence with the Lean model of build_xpc: the partition tree the learner produced (oracle) is replayed
+        if utils is not None and ctx.driver_ok:
+            drv = ctx.get_driver()
+            pj = XD.export_part(utils['part_root'], rec, X)
+            ans = drv.ask(dict(op='xpc', use_clt=use_clt, det=det, part=pj))
+            verdict, text = ans.split(' ', 1)
+            ctx.count('xpc-trees-replayed-in-the-model')
+            if verdict != 'partinv=true':
+                ctx.violation('c04-xpc-partinv', f'learn_xpc({cfg}): the partition tree violates the partition invariant (model verdict {verdict})', replay=rep, found_input=False)
+                continue
+            diff = XD.compare(XD.parse_text(text), root)
+            if diff:
+                ctx.violation('c04-xpc-vs-model', f'learn_xpc({cfg}): returned circuit differs from buildXpc of its own partition tree: {diff}', replay=rep, found_input=False)
+                continue
+            if sd_eff:
+                a2 = drv.ask(dict(op='xpc_scopes', use_clt=use_clt, det=det, part=pj))
+                if not a2.startswith('laminar=true'):
+                    ctx.violation('c04-xpc-model-not-laminar', f'learn_xpc({cfg}): model says the scope family is not laminar', replay=rep, found_input=False)
         if ctx.n_new() >= 3:
             return
 
